@@ -122,15 +122,10 @@ theorem reach_invariant (body : σ → Resume → Burst ℚ σ) (fuel : Nat) (s0
 theorem init_wf (t0 : ℚ) : AgendaWF ({ now := t0 } : KState ℚ σ) :=
   ⟨fun q hq => by simp at hq, fun q hq => by simp at hq, List.Pairwise.nil⟩
 
-/-- the run-until sentinel: `run(until=at)` schedules it URGENT with delay `at - now`, i.e. due exactly at `at` -/
+/-- the run-until sentinel: `run(until=at)` pushes it with priority URGENT for exactly the instant `at` -/
 theorem sentinel_due (s : KState ℚ σ) (at_ : ℚ) (r : EvRec ℚ) :
-    ((s.newEv r).1.schedule (s.newEv r).2 URGENT (at_ - s.now)).agenda =
-      { time := at_, prio := URGENT, eid := s.eid, ev := s.events.size } :: s.agenda := by
-  show _ :: _ = _
-  congr 1
-  show ({ time := s.now + (at_ - s.now), prio := URGENT, eid := s.eid, ev := s.events.size } : QEntry ℚ) = _
-  congr 1
-  linarith
+    ((s.newEv r).1.scheduleAt (s.newEv r).2 URGENT at_).agenda =
+      { time := at_, prio := URGENT, eid := s.eid, ev := s.events.size } :: s.agenda := rfl
 
 /-! ### non-vacuity: a concrete state with a same-instant URGENT/NORMAL coincidence -/
 
